@@ -420,7 +420,7 @@ def uninterp_apps(terms):
     return acc
 
 
-def ground_axioms(terms):
+def ground_axioms(terms, concave=False):
     """ground instances of the log/exp axioms chosen by the subterms present (two rounds)"""
     ax = []
     apps = uninterp_apps(terms)
@@ -441,9 +441,18 @@ def ground_axioms(terms):
             a, b = x.arg(0), y.arg(0)
             ax.append(z3.Implies(z3.And(a > 0, b > 0), LOG(a * b) == x + y))
             ax.append(z3.Implies(z3.And(a > 0, b > 0), LOG(a / b) == x - y))
+    # concavity of log (tangent-line bounds): log a <= a - 1 ; log a - log b <= (a - b)/b
+    if concave and len(logs) <= 6:
+        for l in logs:
+            a = l.arg(0)
+            ax.append(z3.Implies(a > 0, l <= a - 1))
+        for x, y in itertools.permutations(logs, 2):
+            a, b = x.arg(0), y.arg(0)
+            ax.append(z3.Implies(z3.And(a > 0, b > 0), x - y <= (a - b) / b))
     for e in exps:
         a = e.arg(0)
         ax.append(e > 0)
+        if concave: ax.append(e >= 1 + a)
         ax.append(LOG(e) == a)
         ax.append(z3.Implies(a == 0, e == 1))
         if z3.is_add(a) and a.num_args() == 2:
@@ -528,6 +537,15 @@ def prove(hyps, goal, rlimit=None, want_model=True, use_cvc5=True, recheck=False
             rr = _cvc5(s.to_smt2().replace('(check-sat)', ''))
             v.backend = 'z3+cvc5' if rr == 'unsat' else 'z3'
         return v
+    if r != z3.unsat and not exact:
+        # the counter-model (or the time-out) may only exploit that log/exp are uninterpreted: retry once with the tangent-line
+        # (concavity / convexity) instances added; these are true facts of the real functions, so a proof with them stands
+        extra = ground_axioms(terms, concave=True)
+        if len(extra) > len(ground_axioms(terms)):
+            sc = z3.Solver(); sc.set('timeout', PROVE_TIMEOUT_MS)
+            sc.add(*GLOBAL_FACTS); sc.add(*hyps); sc.add(*ax); sc.add(*extra); sc.add(z3.Not(goal))
+            if sc.check() == z3.unsat:
+                return Verdict('proved', 'z3(+concavity)', time.time() - t0, exact=exact)
     if r == z3.sat:
         m = s.model() if want_model else None
         return Verdict('refuted', 'z3', time.time() - t0, model=m, exact=exact, smt2=None)
